@@ -234,16 +234,9 @@ func (r *c15Runner) history(c *c15Case) {
 func xCase(seed int64, h int) *c15Case {
 	if h%4 == 0 {
 		th := dml2gen.C23History(seed*1000003 + int64(h))
-		w := len(th.Table.Cols)
-		extra := []string{dml2gen.AuditCreateSQL(w)}
-		for _, t := range th.Trigs {
-			extra = append(extra, t.SQL(w))
-		}
-		tabs := map[string]*Table{dml2gen.TrigBase: th.Table}
-		c := &c15Case{h: h, names: []string{dml2gen.TrigAudit, dml2gen.TrigBase}, tabs: tabs, x: "trig", stmts: th.Stmts}
-		c.setup = func() (*dml2.Fixture, []string, error) {
-			return dml2.NewFixture([]string{dml2gen.TrigBase}, tabs, extra...)
-		}
+		names := append([]string{dml2gen.TrigAudit}, th.Names...)
+		c := &c15Case{h: h, names: names, tabs: th.Tables, x: "trig", stmts: th.Stmts}
+		c.setup = func() (*dml2.Fixture, []string, error) { return dml2.NewFixture(th.Names, th.Tables, th.Extra()...) }
 		return c
 	}
 	fh := dml2gen.C18History(seed*1000003 + int64(h))
